@@ -62,7 +62,7 @@ def rr(name, ty, cl, ttl, rd):
 
 
 def gen_opt(rng):
-    owner = enc_name([]) if rng.random() < 0.85 else enc_name([b"x"])
+    owner = enc_name([]) if rng.random() < 0.85 else gen_owner(rng, [b"x"])
     ver = rng.choice([0, 0, 0, 0, 1, 2, 255, rng.randrange(256)])
     top = rng.choice([0, 0, 0, 0x80, rng.randrange(256)])
     flags = rng.choice([0, 0x8000, rng.randrange(65536)])
@@ -87,10 +87,27 @@ def gen_tsig(rng):
     return rr(enc_name(key), 250, cl, ttl, rd)
 
 
+def gen_owner(rng, labels):
+    """Owner octets of a counted record: mostly the plain name; sometimes a compression pointer (whole name or
+    suffix, backwards into the header/question or forwards), sometimes a length octet of a reserved label type
+    (0x40..0xbf: neither a label nor a pointer - the record cannot be delimited), sometimes an over-long label."""
+    r = rng.random()
+    if r < 0.80:
+        return enc_name(labels)
+    pre = []
+    for l in labels[:rng.randint(0, len(labels))]:
+        pre += [len(l)] + list(l)
+    if r < 0.90:
+        return pre + [0xC0 | rng.choice([0, 0, 0, 0x3F]), rng.choice([0x0C, 0x0C, 0x0D, 0x00, 0x04, 0xFF, rng.randrange(256)])]
+    first = rng.choice([0x80, 0xA5, 0xBF, 0x40, 0x7F, 0x41, rng.randrange(0x40, 0xC0)])
+    tail = rng.choice([[0x0C], [0x0C, 0x00], [0x00], [], [rng.randrange(256), 0x00]])
+    return pre + [first] + tail
+
+
 def gen_plain_rr(rng):
     ty = rng.choice([1, 28, 10, 99, 65280])
     cl = rng.choice([1, 1, 3, 255])
-    return rr(enc_name(dnsgen.rand_labels(rng, 2)), ty, cl, rng.choice([0, 60, 0x80000001]), dnsgen.lite_rdata(rng, ty, cl))
+    return rr(gen_owner(rng, dnsgen.rand_labels(rng, 2)), ty, cl, rng.choice([0, 60, 0x80000001]), dnsgen.lite_rdata(rng, ty, cl))
 
 
 def gen_request(rng, zone_names):
@@ -183,7 +200,54 @@ def gen_clean_case(rng):
     return f"{rng.choice(['u', 't', 't'])} {rng.choice([512, 1232, 4096])} {cat} - {hx(msg)}"
 
 
+def _labels_of_len(rng, n, ch):
+    """labels whose wire form (with the root octet) is exactly n octets long (n >= 3)"""
+    out, left = [], n - 1
+    while left > 0:
+        k = min(63, left - 1)
+        if left - 1 - k == 1:        # never leave room for an empty label
+            k -= 1
+        out.append(bytes([rng.choice(ch)]) * k)
+        left -= k + 1
+    return out
+
+
+def gen_limit_edge_case(rng):
+    """Requests carrying a TSIG record (and mostly an OPT record) whose RESPONSE - header, question, OPT and the
+    response TSIG record - ends within a few octets of the size limit on either side: the reserved-space arithmetic
+    of the writer (OPT reserves 11 octets; the TSIG record must fit in what is left) decides between a complete
+    response, a truncated one, and an error."""
+    cat, names = gen_catalog(rng, rng.random() < 0.7)
+    keys = gen_keys(rng)
+    with_opt = rng.random() < 0.8
+    known = [k.split(",") for k in keys.split(";")] if keys != "-" and rng.random() < 0.4 else []
+    if known:
+        kn = list(bytes.fromhex(rng.choice(known)[0]))
+    else:
+        kn = enc_name(_labels_of_len(rng, rng.randint(3, 255), b"kK"))
+    alg = rng.choice([enc_name([b"hmac-sha256"]), enc_name([b"hmac-sha1"]),
+                      enc_name(_labels_of_len(rng, rng.randint(3, 200), b"aA"))])
+    qn = enc_name(_labels_of_len(rng, rng.randint(3, 255), b"qQ"))
+    mac = [rng.randrange(256) for _ in range(rng.choice([0, 10, 16, 20, 32]))]
+    # response TSIG: owner + 10 + algorithm + 16 (+ MAC of a verified request, + 6 octets of other data for BADTIME)
+    base = 12 + len(qn) + 4 + (11 if with_opt else 0) + len(kn) + 10 + len(alg) + 16
+    limit = base + (rng.choice([0, 20, 32, 6, 26, 38]) if known else 0) + rng.randint(-13, 13)
+    limit = max(512, min(limit, 65535))
+    rd = dnsgen.tsig_rdata(rng, alg=alg, mac=mac, time=rng.choice([0, 1700000000]), orig_id=rng.randrange(65536),
+                           error=0, other=[])
+    ar = ([rr(enc_name([]), 41, limit, 0, [])] if with_opt else []) + [rr(kn, 250, 255, 0, rd)]
+    msg = u16(rng.randrange(65536)) + u16(rng.choice([0, 0x0100])) + u16(1) + u16(0) + u16(0) + u16(len(ar)) + \
+        qn + u16(rng.choice([1, 2, 255])) + u16(rng.choice([1, 1, 3, 255]))
+    for x in ar:
+        msg += x
+    tr = rng.choice(["u", "u", "u", "t"])
+    edns = rng.choice([limit, limit, 65535, max(512, limit - rng.randint(0, 12)), min(65535, limit + rng.randint(0, 12))])
+    return f"{tr} {edns} {cat} {keys} {hx(msg)}"
+
+
 def gen_case(rng, loaded=True, mutate_p=0.3, clean_p=0.0):
+    if rng.random() < 0.06:
+        return gen_limit_edge_case(rng)
     if clean_p and rng.random() < clean_p:
         return gen_clean_case(rng)
     cat, names = gen_catalog(rng, loaded)
